@@ -7,7 +7,7 @@ From GnarkV Require Import Base.Res Base.Zp Base.F47 CS.Solver.
 Import ListNotations.
 Local Open Scope Z_scope.
 
-Definition step47 := step Z 0 1 (addp p47) (mulp p47) (subp p47) (oppp p47) (divp p47) (invp p47) Z.eq_dec.
+Definition step47 := step Z 0 1 (addp p47) (mulp p47) (subp p47) (oppp p47) (divp p47) (invp p47) Z.eq_dec (fun z => Some (Z.to_nat z)).
 
 (* DivUnchecked(a, b) in the sparse builder: gate  1*(res*b) + (-1)*a = 0, res unsolved *)
 Definition f5_gate : instr Z := ISparse Z 0%nat 2%nat 0%nat 1%nat 0 0 46 1 0 false.
